@@ -134,7 +134,7 @@ def gen_files(rng, dotted=False):
         if rng.random() < 0.1:
             text = ""  # empty file
         elif rng.random() < 0.05:
-            text = "x = (1,\n" if rng.random() < 0.0 else "def (:\n"  # invalid but tokenisable
+            text = "x = = 1"  # invalid but tokenisable (untokenisable texts belong to C14)
         files[p] = text + ("\n" if text and rng.random() < 0.8 else "")
     return files
 
@@ -296,6 +296,30 @@ def first_diff(a, b, path=""):
     return None if a == b else f"{path}: {str(a)[:80]!r} vs {str(b)[:80]!r}"
 
 
+def predict_abort(drv, res, root, cleanup):
+    """When TagDatabase aborted after the labelling phase, feed the recorded labels to the model: it
+    mirrors the code, so it must predict the same abort (KeyError and its key)."""
+    rec = res["rec"]
+    try:
+        from paroxython.list_programs import list_programs
+        programs = quiet(list_programs, root, cleanup_strategy=cleanup)
+    except Exception:  # noqa
+        return None
+    if len(rec.labels) != len(programs):
+        return None
+    progs = [{"path": p.path, "timestamp": "", "source": p.source,
+              "labels": [[n, [span3(x) for x in sp]] for n, sp in rec.labels[i]],
+              "taxa": [[n, [span3(x) for x in sp]] for n, sp in rec.taxa[i]] if i < len(rec.taxa) else []}
+             for i, p in enumerate(programs)]
+    m = drv.call("c11.model", progs=progs)
+    return {"exc": m["exc"], "key": m.get("key")} if "exc" in m else {"returns": True}
+
+
+def dotted_target(files, key):
+    """The missing key `a/b.py` stands for a collected path whose dotted form is the same (`a.b.py`)."""
+    return any(p != key and p.replace("/", ".") == key.replace("/", ".") for p in files)
+
+
 def has_dotted(files):
     return any("." in p[:-3] for p in files)
 
@@ -307,9 +331,13 @@ def judge_dir(ctx, drv, files, root, out_dir, cleanup="full"):
     if "exc" in res:
         what = f"TagDatabase aborted with {res['exc']}"
         sig = None
-        if res["exc"] == "KeyError" and has_dotted(files):
+        model = predict_abort(drv, res, root, cleanup)
+        if (res["exc"] == "KeyError" and has_dotted(files) and model is not None and model.get("exc") == "KeyError"
+                and "." in model.get("key", "")[:-3].replace("/", ".") and dotted_target(files, model.get("key", ""))):
             sig = DOTTED_SIG
         return {"kind": "violation", "what": what, "impl": {"exc": res["exc"], "msg": res.get("exc_msg")},
+                "model": model, "spec": "C11/C14: a database with one record per program (Props/C11.lean: C11_total, false on "
+                                        "the current tree: C11_total_counterexample)",
                 "signature": sig}
     if "json" not in res:
         return {"kind": "violation", "what": "get_json() is not valid JSON", "impl": res.get("json_error")}
@@ -696,7 +724,7 @@ def run(ctx):
     )
     try:
         stream_helpers(ctx, drv)
-        n_dirs = 70 if ctx.tier == "quick" else 900
+        n_dirs = 160 if ctx.tier == "quick" else 900
         stream_dirs(ctx, drv, n_dirs)
     finally:
         drv.close()
